@@ -112,8 +112,17 @@ def loader_precedence(chk: Check, rule: str = 'PROV-loader-precedence') -> None:
     ok = False
     for t in tries:
         if any(isinstance(c, ast.Call) and last_name(c) == 'get_custom_meta' for s in t.body for c in ast.walk(s)):
-            h_ok = any(h.type is not None and 'ValueError' in norm(h.type) and any(isinstance(s, ast.Assign) and norm(s.targets[0]) == 'loader' and 'default' in norm(s.value) for s in h.body) for h in t.handlers)
-            e_ok = any(isinstance(s, ast.Assign) and norm(s.targets[0]) == 'loader' and ('loader_identifier' in _R(eol).text(s.value) or 'get_custom_meta' in _R(eol).text(s.value)) for s in t.orelse)
+            ce_ = [c for c in calls_in_func(eol, 'copyextend')]
+            lv = next((norm(k.value) for c in ce_ for k in c.keywords if k.arg == 'loader'), 'loader')   # the local that carries the chosen loader
+            is_default = lambda v: 'default' in _R(eol).text(v) or 'get_object_loader' in _R(eol).text(v)
+            # the default is what the local holds when the lookup raises: assigned in the handler, or assigned before the try and left alone by the handler
+            before = [s for s in eol.node.body if isinstance(s, ast.Assign) and norm(s.targets[0]) == lv and s.lineno < t.lineno]
+            h_ok = any(h.type is not None and 'ValueError' in norm(h.type) and (
+                any(isinstance(s, ast.Assign) and norm(s.targets[0]) == lv and is_default(s.value) for s in h.body)
+                or (not any(isinstance(x, ast.Name) and x.id == lv and isinstance(x.ctx, ast.Store) for s in h.body for x in ast.walk(s)) and bool(before) and is_default(before[-1].value)
+                    and not any(isinstance(x, (ast.Raise, ast.Return)) for s in h.body for x in ast.walk(s)))) for h in t.handlers)
+            after_get = t.orelse + [s for s in t.body if not any(isinstance(c, ast.Call) and last_name(c) == 'get_custom_meta' for c in ast.walk(s))]
+            e_ok = any(isinstance(s, ast.Assign) and norm(s.targets[0]) == lv and ('loader_identifier' in _R(eol).text(s.value) or 'get_custom_meta' in _R(eol).text(s.value)) for s in after_get)
             ok = h_ok and e_ok
     chk.ob(rule, eol, ok, '3) the global default is used only when the saved state names none', kind='default-last')
     ce = [c for c in calls_in_func(eol, 'copyextend')]
